@@ -551,3 +551,36 @@ pub fn main(args: &[String]) {
         }
     }
 }
+
+// ------------------------------------------------------------------------
+/// The harness's own encoder for a whole message (used by the scripted
+/// upstream): no use of the crate's serialiser.  With `compress`, owner names
+/// equal to the question name are written as a pointer to offset 12.
+pub fn encode_plain(m: &AMsg, compress: bool) -> Vec<u8> {
+    let (flags, secs) = expected(m);
+    let mut b = vec![];
+    b.extend(m.id.to_be_bytes());
+    b.extend(flags.to_be_bytes());
+    b.extend(1u16.to_be_bytes());
+    for s in &secs {
+        b.extend((s.len() as u16).to_be_bytes());
+    }
+    b.extend(wire_name(&m.qname));
+    b.extend(m.qtype.to_be_bytes());
+    b.extend(m.qclass.to_be_bytes());
+    for s in &secs {
+        for r in s {
+            if compress && !m.qname.is_empty() && r.name == m.qname {
+                b.extend([0xc0, 12]);
+            } else {
+                b.extend(wire_name(&r.name));
+            }
+            b.extend(r.rtype.to_be_bytes());
+            b.extend(r.class.to_be_bytes());
+            b.extend(r.ttl.to_be_bytes());
+            b.extend((r.rdata.len() as u16).to_be_bytes());
+            b.extend(&r.rdata);
+        }
+    }
+    b
+}
